@@ -196,6 +196,11 @@ def parse_operand(c):
     if c.eat('const '):
         txt = skip_balanced_until(c, ',;').strip()
         return ('const', txt)
+    if c.peek() and (c.peek().isalpha() or c.peek() in '<_{'):
+        # bare function item used as an operand (fn pointers passed to adaptors)
+        txt = skip_balanced_until(c, ',;').strip()
+        if txt:
+            return ('const', txt)
     raise ParseError('operand at %r' % c.rest()[:50])
 
 
@@ -208,6 +213,9 @@ def parse_operand_list(c, close):
         ops.append(parse_operand(c))
         c.ws()
         if c.eat(','):
+            c.ws()
+            if c.eat(close):
+                return ops
             continue
         c.expect(close)
         return ops
@@ -377,7 +385,7 @@ class Fn:
         self.blocks = {}
 
 
-_term_call_re = re.compile(r'^(.*?) -> (\[return: bb(\d+), unwind[^\]]*\]|unwind [a-z() ]+);$')
+_term_call_re = re.compile(r'^(.*?) -> (\[return: bb(\d+), unwind[^\]]*\]|unwind [a-z() ]+|bb\d+);$')
 
 
 def split_call(text):
@@ -495,12 +503,22 @@ def parse_term(line):
             dest, func, args = split_call(m.group(1))
         except (ParseError, ValueError, AssertionError) as e:
             return ('unknown', t, str(e))
-        ret = int(m.group(3)) if m.group(3) is not None else None
+        ret = int(m.group(3)) if m.group(3) is not None else (int(m.group(2)[2:]) if m.group(2).startswith('bb') else None)
         return ('call', dest, func, args, ret)
     if t.startswith('falseEdge') or t.startswith('falseUnwind'):
         m = re.search(r'bb(\d+)', t)
         return ('goto', int(m.group(1)))
     return ('unknown', t, 'terminator')
+
+
+_span_re = re.compile(r'\s*// (?:return place )?(?:in )?scope \d+ at (.*)$')
+
+
+def strip_span(ln):
+    m = _span_re.search(ln)
+    if m:
+        return ln[:m.start()].rstrip(), m.group(1)
+    return ln, None
 
 
 _hdr_fn = re.compile(r'^(fn|const|static(?: mut)?) (.*)$')
@@ -630,12 +648,16 @@ class Mir:
         cur = None
         while i < e:
             ln = self.lines[i]
-            m = _bb_re.match(ln)
+            m = _bb_re.match(ln.split(' // ')[0].rstrip() if ln.startswith('    bb') else ln)
             if m:
-                cur = {'stmts': [], 'term': None, 'cleanup': bool(m.group(2)), 'raw': []}
+                cur = {'stmts': [], 'term': None, 'cleanup': bool(m.group(2)), 'raw': [], 'spans': []}
                 fn.blocks[int(m.group(1))] = cur
                 i += 1
                 continue
+            if ln.lstrip().startswith('//'):
+                i += 1
+                continue
+            ln, span = strip_span(ln)
             if cur is None:
                 m = _let_re.match(ln)
                 if m:
@@ -657,6 +679,7 @@ class Mir:
             t = ln.strip()
             if t:
                 cur['raw'].append(t)
+                cur['spans'].append(span)
             i += 1
         return fn
 
